@@ -572,6 +572,22 @@ func init() {
 
 var _ = strings.Contains
 
+// takesBitmapContainsEdge: the path goes along the true edge of an If whose
+// condition is (or ends in) a roaring Bitmap.Contains call.
+func takesBitmapContainsEdge(blocks []*ssa.BasicBlock) bool {
+	for i := 0; i+1 < len(blocks); i++ {
+		b := blocks[i]
+		ifi, ok := b.Instrs[len(b.Instrs)-1].(*ssa.If)
+		if !ok || b.Succs[0] != blocks[i+1] {
+			continue
+		}
+		if call, ok := ifi.Cond.(*ssa.Call); ok && call.Call.StaticCallee() != nil && call.Call.StaticCallee().Name() == "Contains" && strings.Contains(funcFullName(call.Call.StaticCallee()), "roaring") {
+			return true
+		}
+	}
+	return false
+}
+
 // scratchSummary: what fn does to field F of its parameter pi — "reset" (a
 // fresh value: [:0], nil or make, on every path), "accumulate" (only values
 // grown from the field's own previous value), "none" or "unknown".
@@ -740,6 +756,7 @@ func init() {
 						continue
 					}
 					bad, und := "", ""
+					skipped := ""
 					np := 0
 					for _, p := range paths {
 						idx := -1
@@ -749,6 +766,12 @@ func init() {
 							}
 						}
 						if idx < 0 {
+							// an iteration that adds no record: only a dropped document (the true edge of
+							// a Contains test on a deletion bitmap) or an error exit may do that — the
+							// block coder numbers records by counting Add calls
+							if !p.exit && !takesBitmapContainsEdge(p.blocks) && skipped == "" {
+								skipped = blockList(p.blocks)
+							}
 							continue
 						}
 						np++
@@ -910,6 +933,11 @@ func init() {
 						if bad != "" {
 							break
 						}
+					}
+					if skipped != "" {
+						r.bad(fnName(fn)+"/record-per-document", fnName(fn), c.pos(add.Pos()), "an iteration of the document loop (path "+skipped+") continues without adding a record and without the document being dropped: the block coder counts records, so every later document of the block is found under the wrong number")
+					} else {
+						r.ok(fnName(fn)+"/record-per-document", fnName(fn), c.pos(add.Pos()), "every iteration adds exactly one record unless the document is dropped")
 					}
 					switch {
 					case bad != "":
@@ -1310,6 +1338,99 @@ func init() {
 						}
 					}
 				}
+			}
+		},
+	})
+}
+
+func init() {
+	register(&Rule{
+		Name:  "TERM-FREQ-ACCUMULATED",
+		Floor: 1,
+		Doc:   "where the builder rolls up the terms of a field instance into the per-document tokenFreq entries, every path through the handling of one term stores the entry's frequency from that term's Frequency() — setting it for a new entry, adding to it for an entry that exists already (a field name repeated in one document): no occurrence of a term is left out of the summed term frequency",
+		Run: func(c *Ctx, scope string, r *Report) {
+			n := 0
+			for _, fn := range c.srcFns {
+				// functions that handle one FieldTerm: they invoke Frequency() on the term interface
+				var freqCalls []*ssa.Call
+				for _, b := range fn.Blocks {
+					for _, ins := range b.Instrs {
+						if call, ok := ins.(*ssa.Call); ok && call.Call.IsInvoke() && call.Call.Method.Name() == "Frequency" && strings.HasSuffix(call.Call.Value.Type().String(), "bluge_segment_api.FieldTerm") {
+							freqCalls = append(freqCalls, call)
+						}
+					}
+				}
+				if len(freqCalls) == 0 {
+					continue
+				}
+				dependsOnFreq := func(v ssa.Value) bool {
+					seen := map[ssa.Value]bool{}
+					var walk func(v ssa.Value, d int) bool
+					walk = func(v ssa.Value, d int) bool {
+						if d > 6 || seen[v] {
+							return false
+						}
+						seen[v] = true
+						for _, fc := range freqCalls {
+							if v == ssa.Value(fc) {
+								return true
+							}
+						}
+						switch x := v.(type) {
+						case *ssa.BinOp:
+							return walk(x.X, d+1) || walk(x.Y, d+1)
+						case *ssa.Convert:
+							return walk(x.X, d+1)
+						case *ssa.Phi:
+							for _, e := range x.Edges {
+								if walk(e, d+1) {
+									return true
+								}
+							}
+						}
+						return false
+					}
+					return walk(v, 0)
+				}
+				via := map[*ssa.BasicBlock]bool{}
+				for _, b := range fn.Blocks {
+					for _, ins := range b.Instrs {
+						st, ok := ins.(*ssa.Store)
+						if !ok {
+							continue
+						}
+						fa, ok := st.Addr.(*ssa.FieldAddr)
+						if !ok {
+							continue
+						}
+						owner, f := fieldAddrInfo(fa)
+						if owner == nil || f == nil || owner.Obj().Name() != "tokenFreq" || f.Name() != "frequency" {
+							continue
+						}
+						if dependsOnFreq(st.Val) {
+							via[b] = true
+						}
+					}
+				}
+				if len(via) == 0 {
+					continue // uses Frequency() for something else (e.g. statistics)
+				}
+				n++
+				key := fnName(fn) + "/frequency-on-every-path"
+				bad := ""
+				for _, b := range fn.Blocks {
+					if ret, ok := b.Instrs[len(b.Instrs)-1].(*ssa.Return); ok && !coveredOnAllPaths(fn, via, b) {
+						bad = c.pos(retPos(ret, b))
+					}
+				}
+				if bad == "" {
+					r.ok(key, fnName(fn), c.pos(fn.Pos()), "every path stores the entry's frequency from this term's Frequency()")
+				} else {
+					r.bad(key, fnName(fn), c.pos(fn.Pos()), "a path through the handling of one term (return at "+bad+") does not add the term's Frequency() to its entry: a field name repeated in one document loses the frequency of its later instances")
+				}
+			}
+			if n == 0 {
+				r.undecided("term-frequency", "", "-", "cannot find where the builder rolls term frequencies up into tokenFreq entries")
 			}
 		},
 	})
